@@ -281,11 +281,12 @@ def check_levels_decoder(ctx, rule="R42.hybrid"):
     bad = None
     done = 0
     try:
-        for w in (2, 3, 8):
-            v1 = 1
+        for w in (0, 2, 3, 8, 12):
+            v1 = 1 if w else 0
             # the value carried by an empty run is chosen so that reading it as a header would start another run (2 = a
-            # one-value RLE run, 3 = a one-group bit-packed run)
-            for runs, count in (([("rle", 5, v1)], 5), ([("rle", 0, 2), ("rle", 3, v1)], 3), ([("rle", 0, 3), ("rle", 0, 2), ("rle", 9, v1)], 9),
+            # one-value RLE run, 3 = a one-group bit-packed run); at width 0 a run's value occupies no byte at all
+            grid0 = (([("rle", 5, 0)], 5), ([("rle", 9, 0), ("rle", 3, 0)], 12), ([("rle", 100, 0)], 40), ([("bp", 2)], 16), ([("rle", 8, 0), ("bp", 1), ("rle", 4, 0)], 20))
+            for runs, count in grid0 if w == 0 else (([("rle", 5, v1)], 5), ([("rle", 0, 2), ("rle", 3, v1)], 3), ([("rle", 0, 3), ("rle", 0, 2), ("rle", 9, v1)], 9),
                                 ([("rle", 100, v1)], 40), ([("bp", 0), ("rle", 4, v1)], 4), ([("rle", 2, v1), ("rle", 0, 2), ("rle", 2, 0)], 4),
                                 ([("bp", 2)], 16), ([("bp", 3)], 19), ([("rle", 3, v1), ("bp", 1), ("rle", 0, 3), ("rle", 5, 0)], 16)):
                 stream, exp = hybrid_spec(runs, w, count)
